@@ -97,6 +97,24 @@ CHECKS = {
         "technique": "Lean 4 proof (stamped-trace invariant) + prefix enumeration + source-kind differential run",
         "design_ref": "DESIGN.md §8 C10",
     },
+    "C11": {
+        "text": "C11.c11_obj_to_events (mutual structural induction, every layout meeting table-checked side conditions c11_tables, every conforming value): turning the "
+                "object back into events gives exactly the dictated event list (paths, declared types, values, value classes, widths), absent parts being their single "
+                "marker event; with decode_ok (c11_roundtrip) this is the decoded event list, and by C02 re-encoding gives the bytes. obj_to_events is modelled (o2e) and "
+                "tied by correspondence on objects of every type and command code; events_to_obj is not modelled: 'decoder object == object rebuilt from events' and the "
+                "Canonical facade are enforced by the monitor on the real code (one defect repaired).",
+        "technique": "Lean 4 proof (mutual induction over layouts) + differential run on obj_to_events + object-equality monitor",
+        "design_ref": "DESIGN.md §8 C11",
+    },
+    "C12": {
+        "text": "The only cross-call state is the cache around TPMS_PARAMS.encrypted(); its capacity is read from the source on every run (c12_capacity: unbounded). "
+                "C12.c12: for EVERY history of requests - any number of decodes, sequential or interleaved in any schedule - two requests for the same class return the same "
+                "type identity (invariant: the cache is a growing partial map; c12_stable, get_step); c12_bounded_counterexample shows why a bound breaks it; the rest of a "
+                "decode is a function in the model (c12_function). The monitor replays sequential and step-wise interleaved histories (seeded schedules over live generators) "
+                "of encrypted-parameter messages of all eligible command codes on the real code and compares events/objects with ==.",
+        "technique": "Lean 4 proof (invariant over all operation histories) + capacity translated from source + interleaving monitor",
+        "design_ref": "DESIGN.md §8 C12",
+    },
     "C13": {
         "text": "C13.c13: for every layout and EVERY input on which strict decoding raises a constraint error, input = bytes of the shown events ++ bytes consumed without an event "
                 "++ remaining bytes, and remaining = exactly the walker's unconsumed suffix (also when it is empty). From the accounting invariant + pump definition. The stale "
@@ -104,6 +122,24 @@ CHECKS = {
                 "enumeration (incl. the final field).",
         "technique": "Lean 4 proof (accounting invariant for all inputs) + fault enumeration monitor",
         "design_ref": "DESIGN.md §8 C13",
+    },
+    "C14": {
+        "text": "For EVERY event list on which the pretty printer succeeds, the hex column concatenated over all rows equals the re-encoded events (c14_hex: every byte once, "
+                "in order), each row's indentation/type/name/value columns are those of its event (c14_row_columns); for every shaped stream (value events resolve to known "
+                "classes, byte-buffer children carry values) the printer returns rows (c14_total), and the events printer has one row per event (c14_events_rows). The model of "
+                "both printers (incl. list folding and bit rows) is tied by a both-mode differential run over streams of well-formed, fault-enumerated and arbitrary inputs; row "
+                "bijection, warning order and Shaped-ness of decoder streams are monitored. Two printer defects repaired.",
+        "technique": "Lean 4 proofs (induction over the list-folding state machine) + column-wise differential run of both printers",
+        "design_ref": "DESIGN.md §8 C14",
+    },
+    "C15": {
+        "text": "Hex: whitespace is irrelevant (c15_hex_whitespace), a text decodes to bs IFF its whitespace-free content is hex pairs spelling bs, otherwise ValueError (c15_hex_iff), "
+                "every rendering decodes to its bytes (c15_hex_render). swtpm: for the documented layout (free text without 'S', control and SWTPM_IO sections of upper-case hex lines) "
+                "the 4-state scanner yields exactly the SWTPM_IO payloads (c15_swtpm_render, invariant proof over sections; constants regenerated). pcapng: runts skipped, payloads cut "
+                "to their own size field (c15_pcap_*); auto: the two-byte magic rule (c15_auto). Scanners are compared exhaustively on all short strings over small alphabets; rendered "
+                "streams are decoded through every container incl. real pcapng files written with dpkt. One defect repaired (signed pairs).",
+        "technique": "Lean 4 proofs (scanner invariants, iff-characterisation) + exhaustive small-world correspondence + container round trips",
+        "design_ref": "DESIGN.md §8 C15",
     },
     "C16": {
         "text": "Theorems: the byte form is the big-endian two's-complement encoding of the declared width and round-trips in both directions for every "
